@@ -1,20 +1,110 @@
 """Per-property configuration of bin/check."""
 
 TRUSTED_BASE = [
-    "Coq 8.16.1 kernel and its vm_compute machine (no native_compute); coqchk in the thorough tier of C19",
-    "no axiom declared by the development; Print Assumptions output of every property theorem is in this file",
+    "Coq 8.16.1 kernel and its vm_compute machine (no native_compute); coqchk -o over the property files in the thorough tier",
+    "no axiom declared by the development; the Print Assumptions output of every property theorem is in this file",
     "extraction (ExtrOcamlBasic only, no Extract Constant / Extract Inductive of our own) and runner/main.ml (generic S-expression reader/printer) -- used only for the correspondence check, never in place of a theorem",
-    "the Go harness (harness/cmd/verifharness): recipe interpreter against the public API, observation printers, canonicalisation (telemetry keys sorted)",
-    "hand-written Gallina model coq/Model/*.v of the library and coq/Redact/*.v of cockroachdb/redact v1.1.5; tied to /repo by the correspondence run of this check",
+    "the Go harness (harness/cmd/verifharness): recipe interpreter against the public API, observation printers, canonicalisation (telemetry keys sorted), the Go-side relations (oracles.go)",
+    "hand-written Gallina model coq/Model/*.v of the library and coq/Redact/*.v of cockroachdb/redact v1.1.5; tied to /repo by the correspondence run of this check (model and implementation evaluated on the same generated recipes, projected observables compared)",
 ]
+
+ASSUME_UNIVERSE = 'error values range over the kinds of Model/Err.v (library types, adapted stdlib / pkg-errors / os / gRPC types, harness user types of harness/ut)'
+
 
 def S(name, quick, thorough, extra=''):
     return {'name': name, 'quick': quick, 'thorough': thorough, 'extra': extra}
 
+
+def AUX(name, cmd, quick, thorough, model=False, cgo=False):
+    return {'name': name, 'quick': quick, 'thorough': thorough, 'aux': cmd, 'model': model, 'cgo': cgo}
+
+
 PROPS = {
+    'C01': {
+        'streams': [S('C01', 250, 6000)],
+        'explanation': 'theorems: wire message has the shape of the visible tree (all trees); a process knowing none of the types re-emits its input verbatim (all wire trees, all strings). Correspondence: text/shape tree and encoded message of model vs implementation locally and after 1 and 2 knowing hops on the enumerated kind x kind corpus + random trees; Go relation: text tree equal after hops 1..4, wire bytes of hop k = hop k+1 for k>=1',
+        'not_yet_proved': ['C01_shape_text (knowing hops keep text and shape, all trees)', 'C01_no_drift for knowing processes'],
+        'assumptions': [ASSUME_UNIVERSE, 'regular strings (property quantifier)'],
+    },
+    'C02': {
+        'streams': [S('C02', 200, 5000)],
+        'explanation': 'theorems: Is is decided by identity / Is methods / mark equality over the visible nodes; opaque stand-ins carry the origin type marks; hops through unknowing processes are invisible to later processes. Correspondence: Is against sentinels, nodes, rebuilt and perturbed copies before and after mixed hop sequences; Go relation: Is invariant (e transferred / both / only r)',
+        'not_yet_proved': ['C02_is_transfer for knowing hops over all trees (needs C01_shape_text)'],
+        'assumptions': [ASSUME_UNIVERSE, 'the process evaluating Is can rebuild the types whose own Is method or Mark layer produced the match (DESIGN.md section 6 reading)'],
+    },
+    'C03': {
+        'streams': [S('C03', 250, 6000)],
+        'explanation': 'Correspondence on hostile strings: redactable %v/%+v, safe details, wire message, Sentry report of model vs implementation, local / knowing hops / unknowing hop; Go relation: no unsafe token in any PII-free output',
+        'not_yet_proved': ['C03_*_ni non-interference through the formatting engine'],
+        'assumptions': [ASSUME_UNIVERSE],
+    },
+    'C04': {
+        'streams': [S('C04', 200, 5000)],
+        'explanation': 'theorems: exact re-encoding and confluence through processes that know none of the types, opaque nodes show the received text and keep names and details; refutation witnesses for the two recorded findings. Correspondence: shape / wire message / details at intermediaries with random knowledge subsets and at a later knowing process; Go relation: text, byte-exact re-encoding, names and details, reconstruction equal to direct receipt',
+        'not_yet_proved': ['C04_confluence for partially knowing intermediaries'],
+        'assumptions': [ASSUME_UNIVERSE, 'regular strings'],
+    },
+    'C06': {
+        'streams': [S('C06', 250, 6000), S('C06R', 150, 4000)],
+        'explanation': 'Correspondence: redactable renderings byte-equal model vs implementation on hostile strings (local, decoded, opaque) and on regular strings with the plain renderings; Go relation: markers balanced / not nested / balanced per line; strip = plain; unsupported verbs refused',
+        'not_yet_proved': ['C06_wf over the buffer model for all byte strings', 'C06_congruent'],
+        'assumptions': [ASSUME_UNIVERSE],
+    },
+    'C07': {
+        'streams': [S('C07', 250, 6000), S('C07M', 150, 4000)],
+        'explanation': 'theorems: hidden payloads are not in the visible tree, Is / accessors of barrier, secondary and mark layers do not depend on them, the hidden payload is re-decoded into the hidden position. Correspondence: accessors, Is, As; Go relation: the same context built over a different hidden payload gives the same cause analysis, locally and after hops',
+        'not_yet_proved': ['C07_ni lifted through arbitrary contexts by induction'],
+        'assumptions': [ASSUME_UNIVERSE],
+    },
+    'C08': {
+        'streams': [S('C08', 250, 6000)],
+        'explanation': 'theorems: reflexivity, monotonicity for every wrapper / multi kind, IsAny = disjunction, nil, equalMarks decides mark equality, exact characterisation, Mark. Correspondence: Is / IsAny matrix against sentinels, nodes, rebuilt and perturbed copies; Go relation: the algebraic laws on the implementation, panics caught',
+        'assumptions': [ASSUME_UNIVERSE],
+    },
+    'C09': {
+        'streams': [S('C09', 150, 5000)],
+        'explanation': 'Correspondence: %v and %+v byte-equal model vs implementation (local and decoded); Go relation: %v = %s = Error(), %q/%x/%X/width/precision/flags = fmt on the Error() string, entry count, Error types line, bad verbs',
+        'not_yet_proved': ['C09_v_s, C09_plus_v layout theorem'],
+        'assumptions': [ASSUME_UNIVERSE, "Go's fmt for %q/%x/%X/width/precision is not modelled (oracle only)"],
+    },
+    'C10': {
+        'streams': [S('C10', 300, 8000)],
+        'explanation': 'theorems: annotation layers transparent for text / root / Is / As, prefix and new-message layers, Handled, nil propagation for every wrapper constructor, CombineErrors / WithSecondaryError nil laws, leaf constructors non-nil. Correspondence: nil-ness, text at every node, root; Go relation: independent compositional model of text and nil-ness over recipes',
+        'not_yet_proved': ["the cause inside 'prefix: cause' is printed with %v: equality with Error() is C09_v_s"],
+        'assumptions': [ASSUME_UNIVERSE, 'regular strings'],
+    },
+    'C11': {
+        'streams': [S('C11', 200, 5000)],
+        'explanation': 'theorems: every annotation layer is rebuilt by one knowing hop over any cause; unknowing hops invisible later. Correspondence: every accessor, per-layer safe details, reportable stacks, one-line source before and after 1 and 2 knowing hops; Go relation: accessor vector equal after hops 1..3',
+        'not_yet_proved': ['C11_obs over whole trees by induction', 'C11_stack_codec'],
+        'assumptions': [ASSUME_UNIVERSE],
+    },
+    'C12': {
+        'streams': [S('C12', 250, 6000)],
+        'explanation': 'Correspondence: Sentry report and safe details model vs implementation; Go relation: every safe-channel token is in the report or in GetAllSafeDetails, locally and after knowing hops',
+        'not_yet_proved': ['C12_retained'],
+        'assumptions': [ASSUME_UNIVERSE, 'channels as listed by the property statement'],
+    },
+    'C13': {
+        'streams': [S('C13', 120, 4000)],
+        'explanation': 'theorems: Is / As clauses of multi-cause nodes, leaves for Unwrap, stdlib join text, wire shape, opaque branches. Correspondence: shape, Is, As, %+v, hops knowing and unknowing; Go relation: branch disjunction, first match in order, nil dropping, transfer keeps branches',
+        'not_yet_proved': ['C13_join text of the library join through the engine'],
+        'assumptions': [ASSUME_UNIVERSE],
+    },
+    'C14': {
+        'streams': [S('C14', 250, 6000)],
+        'explanation': 'theorems: std Is implies Is; As = std As when every wrapper has Unwrap, implication on single chains; Unwrap agreement; Cause = pkg Cause on Cause-bearing chains; std traversal. Correspondence: the real errors.Is/As/Unwrap and pkg/errors.Cause against Std.v; Go relation: the same implications on the implementation',
+        'assumptions': [ASSUME_UNIVERSE, 'Std.v transcribes Go 1.23 errors.Is/As/Unwrap (validated by the correspondence)'],
+    },
+    'C15': {
+        'streams': [S('C15', 120, 4000)],
+        'explanation': 'Correspondence: message, exceptions (type, value, module, frames) and error-types extra of BuildSentryReport, model vs implementation, local and decoded; Go relation: message prefix, one composition line / type line per layer, exceptions = stack-bearing layers outermost first',
+        'not_yet_proved': ['C15 counting theorems over build_report'],
+        'assumptions': [ASSUME_UNIVERSE, 'sentry-go event defaults not modelled'],
+    },
     'C19': {
         'streams': [S('C19', 600, 20000)],
-        'explanation': 'C19_hints/C19_details/C19_flatten/C19_links/C19_keys: the Go accumulator code (transcribed in Model/Access.v) equals the declarative spec of Spec/Aggregate.v for every error tree; correspondence compares GetAllHints/GetAllDetails/Flatten*/GetAllIssueLinks/GetTelemetryKeys/GetContextTags of the real library with the model on generated chains with repeated, empty and standard hints',
-        'assumptions': ['error values range over the kinds of Model/Err.v (library types, adapted foreign types, harness user types)'],
+        'explanation': 'C19_hints/C19_details/C19_flatten/C19_links/C19_keys: the Go accumulator code (transcribed in Model/Access.v) equals the declarative spec of Spec/Aggregate.v for every error tree; correspondence compares GetAllHints/GetAllDetails/Flatten*/GetAllIssueLinks/GetTelemetryKeys/GetContextTags of the real library with the model on generated chains with repeated, empty and standard hints; Go relation: independent re-implementation',
+        'assumptions': [ASSUME_UNIVERSE],
     },
 }
